@@ -276,7 +276,7 @@ func main() {
 		if c.cls != "valid" {
 			R.NT(h)
 		}
-		if m := runVerify(c.pk, c.msg, c.sig); m != "" {
+		if m := mc.Safe(func() string { return runVerify(c.pk, c.msg, c.sig) }); m != "" {
 			R.Mismatch("verify/"+c.cls, "verify", m, mc.D{"pk": mc.Hex(c.pk), "msg": mc.Hex(c.msg), "sig": mc.Hex(c.sig), "class": cls})
 		}
 		if R.WantSample(c.cls) {
